@@ -3,6 +3,7 @@ package main
 import (
 	"fmt"
 	"golang.org/x/tools/go/ssa"
+	"sort"
 	"strings"
 )
 
@@ -66,14 +67,16 @@ func signBytesEncoder(c *Ctx) *ssa.Function {
 			found = f
 		}
 	}
-	for _, a := range fn.AnonFuncs {
-		consider(a)
+	// anywhere in what ValidateVoteExtensions reaches (closures, helpers of helpers)
+	reach := c.W.BuildEffects().Reach(fn)
+	var cands []*ssa.Function
+	for g := range reach {
+		cands = append(cands, g)
 	}
-	for _, b := range fn.Blocks {
-		for _, in := range b.Instrs {
-			if ci, ok := in.(ssa.CallInstruction); ok {
-				consider(ci.Common().StaticCallee())
-			}
+	sort.Slice(cands, func(i, j int) bool { return cands[i].String() < cands[j].String() })
+	for _, g := range cands {
+		if g != fn {
+			consider(g)
 		}
 	}
 	if found == nil {
